@@ -112,6 +112,10 @@ pub enum Edit {
     AddVFieldWide,
     /// `#[savefile_versions = "2.."] c: u32` in Arg, interface version 2
     AddVField2,
+    /// `#[savefile_versions = "2.."] D` in En, interface version 2 (an alternative version 2)
+    AddVariant2,
+    /// the versioned field `b` of Arg is dropped again, the version number stays
+    DropVField,
     ClosureArgType,
     ClosureRetType,
     OtherArgType,
@@ -131,8 +135,8 @@ impl Edit {
     pub fn class(self) -> Class {
         use Edit::*;
         match self {
-            Same | AddMethod | AddMethodFront | AddVField | AddVariant | Bump | AddVFieldWide | AddVField2 | OtherAddMethod => Class::Compatible,
-            RemoveMethod | ArgCount | ArgType | RetType | FieldType | ClosureArgType | ClosureRetType | OtherArgType | OtherRetType | OtherRemoveMethod => {
+            Same | AddMethod | AddMethodFront | AddVField | AddVariant | Bump | AddVFieldWide | AddVField2 | AddVariant2 | OtherAddMethod => Class::Compatible,
+            RemoveMethod | ArgCount | ArgType | RetType | FieldType | DropVField | ClosureArgType | ClosureRetType | OtherArgType | OtherRetType | OtherRemoveMethod => {
                 Class::Breaking
             }
         }
@@ -144,12 +148,15 @@ pub struct Revision {
     pub label: &'static str,
     pub parent: Option<usize>,
     pub edit: Edit,
+    /// presented only in the thorough tier (the module is always generated)
+    pub thorough_only: bool,
 }
 
 pub fn revisions(kind: Kind) -> Vec<Revision> {
-    let r = |label, parent, edit| Revision { label, parent: Some(parent), edit };
+    let r = |label, parent, edit| Revision { label, parent: Some(parent), edit, thorough_only: false };
+    let t = |label, parent, edit| Revision { label, parent: Some(parent), edit, thorough_only: true };
     let mut v = vec![
-        Revision { label: "base", parent: None, edit: Edit::Same },
+        Revision { label: "base", parent: None, edit: Edit::Same, thorough_only: false },
         r("same", 0, Edit::Same),
         r("add_method", 0, Edit::AddMethod),
         r("add_method_front", 0, Edit::AddMethodFront),
@@ -165,6 +172,12 @@ pub fn revisions(kind: Kind) -> Vec<Revision> {
         r("vfield_then_method", 4, Edit::AddMethod),
         r("vfield_then_vfield2", 4, Edit::AddVField2),
         r("vfield_then_remove", 4, Edit::RemoveMethod),
+        r("vfield_then_variant2", 4, Edit::AddVariant2),
+        r("bump_then_bump", 11, Edit::Bump),
+        t("vfield_then_drop_field", 4, Edit::DropVField),
+        t("variant_then_method", 5, Edit::AddMethod),
+        t("variant_then_vfield2", 5, Edit::AddVField2),
+        t("vfield2_then_arg_type", 14, Edit::ArgType),
     ];
     match kind {
         Kind::Closure => {
@@ -222,6 +235,11 @@ fn apply(edit: Edit, s: &mut Spec) {
         }
         Edit::AddVField2 => {
             s.arg_fields.push(("c".to_string(), Prim::U32, 2));
+            s.version = s.version.max(2);
+        }
+        Edit::DropVField => s.arg_fields.retain(|f| f.0 != "b"),
+        Edit::AddVariant2 => {
+            s.en_variants.push(("D".to_string(), 2));
             s.version = s.version.max(2);
         }
         Edit::AddVariant => {
